@@ -97,6 +97,17 @@ class JaqalLexer(Lexer):
         token.value = int(token.value[1:-1], base=2)
         return token
 
+    def error(self, token):
+        """Called by the lexer for text that is not a token, e.g. an illegal
+        character or a block comment that is never closed."""
+        column = self.index - self.text.rfind("\n", 0, self.index)
+        raise JaqalParseError(
+            "<string>",
+            self.lineno,
+            column,
+            f"Illegal character {token.value[0]!r}",
+        )
+
 
 class JaqalParser(Parser):
     """Parse Jaqal into core types."""
